@@ -267,6 +267,16 @@ class Path:
             raise PathEnd()
         return ok
 
+    def satisfiable(self):
+        """is the path condition satisfiable? (z3, then cvc5 for z3's unknowns) -- vacuity guard at function exits"""
+        r = self._check()
+        if r == z3.sat:
+            return True
+        if r == z3.unsat:
+            return False
+        from .solver2 import cvc5_check
+        return cvc5_check(list(self.pc), self.timeout_ms) == "sat"
+
     def fail(self, name, detail="", model=None):
         if self.pos < len(self.prefix):
             return
